@@ -17,7 +17,13 @@ MSG_EVENT = {
     'update_ok': 'EvUpdateMsg', 'update_bad': 'EvUpdateMsg', 'notif_version': 'EvNotifVersion',
     'notif_cease': 'EvNotifOther', 'route_refresh': 'EvRouteRefresh', 'bad_marker': '(EvHeaderErr 1)',
     'bad_len_zero': '(EvHeaderErr 2)', 'unknown_type': '(EvHeaderErr 3)',
+    'notif_hdr': 'EvNotifOther', 'notif_upd': 'EvNotifOther', 'notif_hold': 'EvNotifOther', 'notif_fsm': 'EvNotifOther',
+    'notif_cease_data': 'EvNotifOther', 'notif_unassigned': 'EvNotifOther', 'notif_open_other': 'EvNotifOther',
+    'update_eor': 'EvUpdateMsg', 'update_withdraw': 'EvUpdateMsg',
 }
+# message variants delivered in every session state in addition to the exploration alphabet
+DIRECTED = ['notif_hdr', 'notif_upd', 'notif_hold', 'notif_fsm', 'notif_cease_data', 'notif_unassigned', 'notif_open_other',
+            'update_eor', 'update_withdraw']
 TIMER_EVENT = {'TConnectRetry': 'EvConnectRetryExpires', 'THold': 'EvHoldExpires',
                'TKeepAlive': 'EvKeepaliveExpires', 'TIdleHold': 'EvIdleHoldExpires'}
 KNOWN = {
@@ -79,6 +85,15 @@ def run(ctx):
         mism_all += mism
         stats_all[repr(kw)] = stats
         seen_pairs = set()
+        # directed edges: every message variant in every session state
+        M = sc.ALL_MSGS
+        directed = []
+        for prefix in ((('boot',), ('connok', 0)), (('boot',), ('connok', 0), ('data', 0, M['open_ok'])), tuple(sc.EST_PREFIX)):
+            for nm in DIRECTED:
+                directed.append(tuple(prefix) + (('data', 0, M[nm]),))
+        runs, mism_d = sc.compare_traces(ctx, [(kw, list(p)) for p in directed], per_shard=30)
+        mism_all += mism_d
+        leaves = list(leaves) + [(p, r[1], r[2], r[0]) for p, r in zip(directed, runs)]
         for path, cevs, res, d in leaves:
             # the last step of each explored path is one (state, event) edge
             before = res[-2][2] if len(res) > 1 else None
